@@ -519,17 +519,39 @@ def check_push_pop_predicate(ctx, rep, f, rule='R-PDAFORM.form'):
 
 # ---- the stack step: guard and action decided on a finite model -----------------------------------------------------------
 
-def _run_small(f, env):
+def _run_small(f, env, protected=()):
     """value returned (or ('raise',)) by a small function: assignments, if / else, return, raise; expressions through the
     analyser's evaluator on the concrete values of the finite model"""
     def run(stmts):
         for st in stmts:
-            if isinstance(st, ast.Expr):
+            if isinstance(st, ast.Expr) and isinstance(st.value, ast.Constant):
                 continue
+            if isinstance(st, ast.Expr):
+                c = st.value
+                # result.append(v) / result.extend([...]) on a local list
+                if isinstance(c, ast.Call) and isinstance(c.func, ast.Attribute) and isinstance(c.func.value, ast.Name) and c.func.attr in ('append', 'extend', 'pop') \
+                        and isinstance(env.get(c.func.value.id), list) and c.func.value.id not in protected:
+                    lst = env[c.func.value.id]
+                    if c.func.attr == 'append' and len(c.args) == 1:
+                        lst.append(abseval.ev(c.args[0], env))
+                    elif c.func.attr == 'extend' and len(c.args) == 1:
+                        lst.extend(abseval.ev(c.args[0], env))
+                    elif c.func.attr == 'pop' and not c.args:
+                        lst.pop()
+                    else:
+                        raise Unsupported('call ' + u(c))
+                    continue
+                if isinstance(c, ast.Call) and isinstance(c.func, ast.Name) and c.func.id in ('print', 'log'):
+                    continue
+                raise Unsupported('statement ' + u(st)[:40])
             if isinstance(st, (ast.Assign, ast.AnnAssign)) and isinstance(st.targets[0] if isinstance(st, ast.Assign) else st.target, ast.Name):
                 tg = st.targets[0] if isinstance(st, ast.Assign) else st.target
                 if st.value is not None:
-                    env[tg.id] = abseval.ev(st.value, env)
+                    v = abseval.ev(st.value, env)
+                    # a slice / concatenation is a new list; a plain alias of a protected argument stays protected
+                    if isinstance(st.value, ast.Name) and st.value.id in protected:
+                        raise Unsupported('alias of the argument ' + st.value.id)
+                    env[tg.id] = list(v) if isinstance(v, list) else v
                 continue
             if isinstance(st, ast.If):
                 r = run(st.body) if abseval.ev(st.test, env) else run(st.orelse)
@@ -552,9 +574,11 @@ def _run_small(f, env):
 
 def check_stack_step(ctx, rep, f_can, f_do, rule='R-MODEL.M9'):
     """pda_can_pop_push(P, stack, u, v) is true exactly when u is epsilon or u is on top of the stack, and
-    pda_pop_push returns the stack with u popped (unless epsilon) and v pushed (unless epsilon) -- decided for every
-    combination of u in {eps, X}, v in {eps, X, Y} and stack in {[], [X], [Y], [Z, X], [X, Y]} (the functions only compare
-    symbols for equality, so three distinct symbols cover all orderings)."""
+    pda_pop_push returns the stack with u popped (unless epsilon) and v pushed (unless epsilon), leaving the stack it was
+    given untouched -- decided for every combination of u in {eps, X}, v in {eps, X, Y} and stack in
+    {[], [X], [Y], [Z, X], [X, Y]}, for the epsilon symbols '' and '_' (the functions only compare symbols for equality,
+    so three distinct symbols cover all orderings).  Evaluated by the analyser's finite-model evaluator."""
+    from ..miniexec import Interp, Obj, Raised
     n = 0
     stacks = [[], ['X'], ['Y'], ['Z', 'X'], ['X', 'Y']]
     for f, kind in ((f_can, 'guard'), (f_do, 'action')):
@@ -565,41 +589,49 @@ def check_stack_step(ctx, rep, f_can, f_do, rule='R-MODEL.M9'):
         bad = None
         cases = 0
         try:
-            for uu in (EPS, 'X'):
-                for vv in (EPS, 'X', 'Y'):
-                    for st in stacks:
-                        env = {ps[0] + '.epsilon': EPS, ps[1]: list(st), ps[2]: uu, ps[3]: vv, 'RuntimeError': None}
-                        r = _run_small(f, env)
-                        cases += 1
-                        possible = uu == EPS or (bool(st) and st[-1] == uu)
-                        if kind == 'guard':
-                            got = bool(r[1]) if r[0] == 'ret' else None
-                            if got is not possible:
-                                bad = (uu, vv, st, 'answers {} where the step is {}'.format(got, 'possible' if possible else 'impossible'))
-                        else:
-                            if not possible:
-                                continue        # the action is only called under the guard
-                            want = list(st)
-                            if uu != EPS:
-                                want = want[:-1]
-                            if vv != EPS:
-                                want = want + [vv]
-                            if r[0] != 'ret' or list(r[1] if r[1] is not None else ['?']) != want:
-                                bad = (uu, vv, st, 'returns {} where {} is expected'.format('an error' if r[0] == 'raise' else r[1], want))
+            for eps in ('', '_'):
+                for uu in (eps, 'X'):
+                    for vv in (eps, 'X', 'Y'):
+                        for st in stacks:
+                            arg = list(st)
+                            P = Obj('PDA', epsilon=eps)
+                            try:
+                                r = ('ret', Interp(ctx).call(f, [P, arg, uu, vv]))
+                            except Raised:
+                                r = ('raise',)
+                            cases += 1
+                            possible = uu == eps or (bool(st) and st[-1] == uu)
+                            show = lambda x: 'epsilon' if x == eps else x
+                            if arg != st:
+                                bad = (show(uu), show(vv), st, 'changes the stack it was given to {} (the configuration it came from is corrupted)'.format(arg))
+                            elif kind == 'guard':
+                                got = bool(r[1]) if r[0] == 'ret' else None
+                                if got is not possible:
+                                    bad = (show(uu), show(vv), st, 'answers {} where the step is {}'.format(got, 'possible' if possible else 'impossible'))
+                            elif possible:      # the action is only called under the guard
+                                want = list(st)
+                                if uu != eps:
+                                    want = want[:-1]
+                                if vv != eps:
+                                    want = want + [vv]
+                                if r[0] != 'ret' or not isinstance(r[1], list) or r[1] != want:
+                                    bad = (show(uu), show(vv), st, 'returns {} where {} is expected'.format('an error' if r[0] == 'raise' else r[1], want))
+                            if bad:
+                                break
                         if bad:
                             break
                     if bad:
                         break
                 if bad:
                     break
-        except (Unsupported, abseval.Unsupported, TypeError, IndexError, KeyError) as e:
-            rep.undecided(rule, f, 'def ' + f.name, 'body outside the fragment of the finite model: {}'.format(e))
+        except Unsupported as e:
+            rep.undecided(rule, f, 'def ' + f.name, 'body outside the fragment of the finite-model evaluator: {}'.format(e))
             continue
         n += 1
         if bad:
             uu, vv, st, what = bad
             rep.violates(rule, f, 'def ' + f.name, 'stack step {}: for pop {} / push {} on the stack {} (top on the right) the function {}: a transition that replaces the top symbol is '
-                         'treated wrongly, so computations through it are lost or invented'.format(kind, uu or 'epsilon', vv or 'epsilon', st, what))
+                         'treated wrongly, so computations through it are lost or invented'.format(kind, uu, vv, st, what))
         else:
-            rep.holds(rule, f, 'def ' + f.name, 'stack step {} agrees with the definition on all {} cases of the finite model (u, v in epsilon / symbols, five stacks)'.format(kind, cases))
+            rep.holds(rule, f, 'def ' + f.name, 'stack step {} agrees with the definition on all {} cases of the finite model (u, v in epsilon / symbols, five stacks, two epsilon symbols)'.format(kind, cases))
     return n
